@@ -1660,7 +1660,7 @@ fn suite_block() -> Option<String> {
         }
     }
     for entry in ['i', 't'] {
-        for cap in [1usize, 2] {
+        for cap in [1usize, 2, 4] {
             if let Some((ob, exp, got)) = run_block_case(entry, cap) {
                 return Some(found("block", &ob, format!("block entry={} cap={}", entry, cap), exp, got));
             }
